@@ -36,7 +36,7 @@ PROFILES = {
         "clone": 16, "clone_twice": 4, "linked_copy": 6, "export_leaf": 8, "template_clone": 5, "save": 4, "get_values": 8, "alias_mutate": 10, "hold_values": 4,
         "set_values": 6, "v_item_mutate": 6, "v_append": 4, "v_extend": 3, "v_setitem": 4, "v_remove": 2, "set_dtype": 2,
         "rename": 5, "set_attr": 4, "append": 5, "insert": 2, "remove": 3, "set_parent": 3,
-        "setitem": 2, "set_card": 4, "merge": 4, "set_link": 2, "clean": 1, "new_id": 1,
+        "setitem": 2, "set_card": 4, "merge": 4, "set_link": 2, "clean": 1, "new_id": 1, "reseed": 2,
     }, fault_share=0.15, dtypes=["string", "int", "float", "2-tuple", "3-tuple", "date", "boolean"]),
 }
 # a second profile in which resolved links and their copies dominate (a third of the runs)
